@@ -21,7 +21,7 @@ def showEv : Ev → String
 
 def obs (s : St) (evs : List Ev) : String :=
   let e := if evs.isEmpty then "-" else ";".intercalate (evs.map showEv)
-  s!"{e}|f={if s.finished then 1 else 0} r={if s.result.isSome then 1 else 0} refs={s.refs}"
+  s!"{e}|f={if s.finished then 1 else 0} r={if s.result.isSome then 1 else 0} refs={s.refs} cl={if s.cont.isSome then 1 else 0}"
 
 def stepLine (s : St) (line : String) : St × String :=
   match words line with
